@@ -28,10 +28,13 @@ extern int mpt_dispatch_set(MPT_STRUCT(dispatch) *disp, uintptr_t id, MPT_TYPE(e
 		if (!dst) {
 			return MPT_ERROR(BadArgument);
 		}
+		int (*fcn)(void *, void *) = dst->cmd;
+		void *ctx = dst->arg;
 		pos = dst - ((MPT_STRUCT(command) *) (disp->_d._buf + 1));
-		dst->cmd(dst->arg, 0);
+		/* unregister first: the notification may look up or remove commands itself */
 		dst->cmd = 0;
 		dst->arg = 0;
+		fcn(ctx, 0);
 		return pos;
 	}
 	/* id already used */
